@@ -997,3 +997,175 @@ Proof.
   vm_compute. reflexivity.
 Qed.
 End ExamplesStack.
+
+(* ---------- 6. summing over the upper coordinate ---------- *)
+Lemma run_k_keys_ranks : forall Lo Li (k : list term -> list contrib),
+  (forall s qv, In qv (k s) -> map fst (fst qv) = Li) ->
+  forall tms qv, In qv (run_k Lo k tms) -> map fst (fst qv) = Lo ++ Li.
+Proof.
+  intros Lo Li k Hk. induction Lo as [|r Lo IH]; intros tms qv H; cbn [run_k] in H; [eapply Hk; exact H|].
+  apply in_flat_map in H as [c [_ H]]. apply in_map_iff in H as [qv' [<- H]]. cbn [fst map app]. f_equal. eapply IH; eassumption.
+Qed.
+
+Lemma run_k_keys_nodup : forall Lo (k : list term -> list contrib),
+  (forall s, NoDup (map fst (k s))) -> forall tms, NoDup (map fst (run_k Lo k tms)).
+Proof.
+  intros Lo k Hk. induction Lo as [|r Lo IH]; intros tms; cbn [run_k]; [apply Hk|].
+  assert (Hnd : NoDup (visited r tms)) by apply NoDup_nodup.
+  induction Hnd as [|c cs Hnotin Hnd IHcs]; [constructor|].
+  cbn [flat_map]. rewrite map_app. apply NoDup_app_intro.
+  - rewrite map_map. cbn [fst].
+    assert (Hinj : forall l, NoDup l -> NoDup (map (fun q : list (rank * coord) => (r, c) :: q) l)).
+    { intros l Hl. induction Hl as [|x l Hx Hl IHl]; [constructor|]. cbn. constructor; [|exact IHl].
+      intros Hin. apply in_map_iff in Hin as [y [Ey Hy]]. injection Ey as ->. contradiction. }
+    rewrite <- (map_map fst (fun q => (r, c) :: q)). apply Hinj. apply IH.
+  - exact IHcs.
+  - intros key Hk1 Hk2. apply in_map_iff in Hk1 as [qv1 [<- H1]]. apply in_map_iff in H1 as [qv1' [<- H1]].
+    apply in_map_iff in Hk2 as [qv2 [E2 H2]]. apply in_flat_map in H2 as [c2 [Hc2 H2]].
+    apply in_map_iff in H2 as [qv2' [<- H2]]. cbn [fst] in E2. injection E2 as E2 _. subst c2. contradiction.
+Qed.
+
+Lemma matches_all_eq : forall p (a b : list (rank * coord)),
+  map fst a = map fst b -> matches p a = true -> matches p b = true -> a = b.
+Proof.
+  intros p a. induction a as [|[r c] a IH]; intros [|[r' c'] b] Hk Ha Hb; cbn [map] in Hk; try discriminate; [reflexivity|].
+  injection Hk as -> Hk. cbn [matches forallb fst snd] in Ha, Hb.
+  apply andb_true_iff in Ha as [Ha1 Ha2]. apply andb_true_iff in Hb as [Hb1 Hb2].
+  apply Z.eqb_eq in Ha1, Hb1. f_equal; [congruence|]. apply IH; assumption.
+Qed.
+
+(* with distinct keys over one rank list, a full point receives the value of the one contribution matching it *)
+Lemma sum_at_unique : forall L p cs qv, NoDup (map fst cs) -> (forall qv', In qv' cs -> map fst (fst qv') = L) ->
+  In qv cs -> matches p (fst qv) = true -> sum_at p cs = snd qv.
+Proof.
+  intros L p cs qv. induction cs as [|x cs IH]; intros Hnd Hk Hin Hm; [destruct Hin|].
+  cbn [map] in Hnd. apply NoDup_cons_iff in Hnd as [Hnotin Hnd]. cbn [sum_at].
+  assert (Hzero : forall y : contrib, ~ In (fst y) (map fst cs) -> (forall qv', In qv' cs -> map fst (fst qv') = L) ->
+                  map fst (fst y) = L -> matches p (fst y) = true -> sum_at p cs = 0).
+  { clear. intros y. induction cs as [|z cs IHz]; intros Hn Hk Hy Hm; [reflexivity|]. cbn [sum_at].
+    destruct (matches p (fst z)) eqn:Ez.
+    - exfalso. apply Hn. left. apply (matches_all_eq p); [|exact Ez|exact Hm].
+      rewrite Hy. apply Hk. left. reflexivity.
+    - apply IHz; try assumption; [intros H; apply Hn; right; exact H|intros q Hq; apply Hk; right; exact Hq]. }
+  destruct Hin as [->|Hin].
+  - rewrite Hm. rewrite (Hzero qv Hnotin (fun q Hq => Hk q (or_intror Hq)) (Hk qv (or_introl eq_refl)) Hm). lia.
+  - destruct (matches p (fst x)) eqn:Ex.
+    + exfalso. apply Hnotin. assert (E : fst x = fst qv).
+      { apply (matches_all_eq p); [|exact Ex|exact Hm]. rewrite (Hk x (or_introl eq_refl)), (Hk qv (or_intror Hin)). reflexivity. }
+      rewrite E. apply in_map. exact Hin.
+    + apply IH; try assumption. intros q Hq. apply Hk. right. exact Hq.
+Qed.
+
+Lemma matches_upd_except r1 p u q : matches (upd p r1 u) q = true -> matches_except r1 p q = true.
+Proof.
+  unfold matches, matches_except. rewrite !forallb_forall. intros H rc Hrc. specialize (H rc Hrc).
+  destruct rc as [x c]. cbn [fst snd] in *. unfold upd in H. destruct (String.eqb x r1); [reflexivity|exact H].
+Qed.
+
+(* a key over a duplicate-free rank list holding r1: agreeing with p outside r1 is matching p[r1 := the key's r1-coordinate] *)
+Lemma matches_except_upd r1 p q : NoDup (map fst q) -> In r1 (map fst q) -> matches_except r1 p q = true ->
+  exists u, matches (upd p r1 u) q = true.
+Proof.
+  induction q as [|[x c] q IH]; intros Hnd Hin Hm; [destruct Hin|].
+  cbn [map fst] in Hnd, Hin. apply NoDup_cons_iff in Hnd as [Hx Hnd].
+  cbn [matches_except forallb fst snd] in Hm. apply andb_true_iff in Hm as [Hm1 Hm2].
+  destruct (String.eqb_spec x r1) as [->|Hne].
+  - exists c. cbn [matches forallb fst snd]. unfold upd at 1. rewrite String.eqb_refl, Z.eqb_refl. cbn [andb].
+    apply forallb_forall. intros rc Hrc. unfold matches_except in Hm2. rewrite forallb_forall in Hm2. specialize (Hm2 rc Hrc).
+    destruct rc as [y d]. cbn [fst snd] in *. unfold upd. destruct (String.eqb_spec y r1) as [E|Hn].
+    + exfalso. apply Hx. rewrite <- E. apply (in_map fst _ _ Hrc).
+    + exact Hm2.
+  - destruct Hin as [E|Hin]; [contradiction|]. destruct (IH Hnd Hin Hm2) as [u Hu]. exists u.
+    cbn [matches forallb fst snd]. fold (matches (upd p r1 u) q). rewrite Hu, andb_true_r.
+    unfold upd. destruct (String.eqb_spec x r1); [contradiction|]. cbn [orb] in Hm1. exact Hm1.
+Qed.
+
+Lemma sum_except_eq_at r1 p u cs :
+  (forall qv, In qv cs -> matches_except r1 p (fst qv) = true -> snd qv <> 0 -> matches (upd p r1 u) (fst qv) = true) ->
+  sum_except r1 p cs = sum_at (upd p r1 u) cs.
+Proof.
+  induction cs as [|x cs IH]; intros H; [reflexivity|]. cbn [sum_except sum_at].
+  rewrite IH by (intros qv Hq; apply H; right; exact Hq).
+  destruct (matches (upd p r1 u) (fst x)) eqn:Em.
+  - rewrite (matches_upd_except r1 p u _ Em). reflexivity.
+  - destruct (matches_except r1 p (fst x)) eqn:Ee; [|reflexivity].
+    destruct (Z.eq_dec (snd x) 0) as [->|Hnz]; [lia|].
+    rewrite (H x (or_introl eq_refl) Ee Hnz) in Em. discriminate.
+Qed.
+
+Lemma sum_except_zero r1 p cs :
+  (forall qv, In qv cs -> matches_except r1 p (fst qv) = true -> snd qv = 0) -> sum_except r1 p cs = 0.
+Proof.
+  induction cs as [|x cs IH]; intros H; [reflexivity|]. cbn [sum_except].
+  rewrite IH by (intros qv Hq; apply H; right; exact Hq).
+  destruct (matches_except r1 p (fst x)) eqn:Ee; [|reflexivity]. rewrite (H x (or_introl eq_refl) Ee). reflexivity.
+Qed.
+
+(* generic: distinct keys over one duplicate-free rank list holding r1, and at most one upper coordinate (given by sel)
+   with a non-zero value at a full point: summing over r1 picks that coordinate *)
+Lemma sum_except_pick : forall L r1 p cs (sel : option Z),
+  NoDup (map fst cs) -> (forall qv, In qv cs -> map fst (fst qv) = L) -> NoDup L -> In r1 L ->
+  (forall u, sum_at (upd p r1 u) cs <> 0 -> sel = Some u) ->
+  sum_except r1 p cs = match sel with Some u => sum_at (upd p r1 u) cs | None => 0 end.
+Proof.
+  intros L r1 p cs sel Hnd Hk HL Hr1 Huniq.
+  assert (Hkey : forall qv, In qv cs -> matches_except r1 p (fst qv) = true -> snd qv <> 0 ->
+                 exists u, matches (upd p r1 u) (fst qv) = true /\ sel = Some u).
+  { intros qv Hq Hm Hnz. destruct (matches_except_upd r1 p (fst qv)) as [u Hu]; [rewrite (Hk qv Hq); exact HL|rewrite (Hk qv Hq); exact Hr1|exact Hm|].
+    exists u. split; [exact Hu|]. apply Huniq. rewrite (sum_at_unique L _ cs qv Hnd Hk Hq Hu). exact Hnz. }
+  destruct sel as [u|].
+  - apply sum_except_eq_at. intros qv Hq Hm Hnz. destruct (Hkey qv Hq Hm Hnz) as [u' [Hu' E]]. injection E as ->. exact Hu'.
+  - apply sum_except_zero. intros qv Hq Hm. destruct (Z.eq_dec (snd qv) 0) as [E|Hnz]; [exact E|].
+    destruct (Hkey qv Hq Hm Hnz) as [u' [_ E]]. discriminate.
+Qed.
+
+(* the dynamic occupancy split, summed over the upper coordinate: the contributions whose key agrees with p outside r1 add
+   up to the value of the term at the collapsed point - when the lower coordinate has a partition; to 0 otherwise (then
+   the lower coordinate lies below the leader's first element and the term is 0 there anyway: occ_point_has_partition) *)
+Theorem occ_dyn_sum_over_upper : forall Lo r r1 r0 n k Li tm,
+  ~ In r Lo -> ~ In r1 Lo -> r1 <> r0 -> In r1 Li -> NoDup (Lo ++ Li) ->
+  (forall t, In t tm -> ~ In r1 (rem t)) ->
+  wf_outer Lo (occ_state_ok r r1 r0 n k Li) [tm] ->
+  forall p, sum_except r1 p (run_then_split Lo (occ_split r r1 r0 n k) Li [tm]) =
+            match part_of (leader_bounds n k (reach_term Lo p tm)) (p r0) with
+            | Some _ => term_den tm (collapse r r0 p)
+            | None => 0
+            end.
+Proof.
+  intros Lo r r1 r0 n k Li tm Hr Hr1 Hne Hin HL Hfresh Hwf p.
+  set (cs := run_then_split Lo (occ_split r r1 r0 n k) Li [tm]).
+  rewrite (sum_except_pick (Lo ++ Li) r1 p cs (part_of (leader_bounds n k (reach_term Lo p tm)) (p r0))).
+  - destruct (part_of (leader_bounds n k (reach_term Lo p tm)) (p r0)) as [u|] eqn:Eu; [|reflexivity].
+    unfold cs. rewrite (occ_dyn_sound Lo r r1 r0 n k Li tm Hr Hwf).
+    assert (E : reach_term Lo (upd p r1 u) tm = reach_term Lo p tm).
+    { apply reach_term_ext. intros x Hx. unfold upd. destruct (String.eqb_spec x r1) as [->|_]; [contradiction|reflexivity]. }
+    rewrite E. unfold occ_consistent. unfold upd at 1. destruct (String.eqb_spec r0 r1) as [E'|_]; [congruence|].
+    rewrite Eu. unfold upd at 1. rewrite String.eqb_refl, Z.eqb_refl.
+    apply term_den_ext. intros t x Ht Hx. unfold collapse, upd.
+    destruct (String.eqb_spec x r) as [_|_].
+    + destruct (String.eqb_spec r0 r1) as [E'|_]; [congruence|reflexivity].
+    + destruct (String.eqb_spec x r1) as [->|_]; [exfalso; exact (Hfresh t Ht Hx)|reflexivity].
+  - unfold cs, run_then_split. apply run_k_keys_nodup. intros s. apply run_keys_nodup.
+  - unfold cs, run_then_split. apply run_k_keys_ranks. intros s qv Hq. eapply run_keys_ranks. exact Hq.
+  - exact HL.
+  - apply in_or_app. right. exact Hin.
+  - intros u Hnz. unfold cs in Hnz. exact (occ_dyn_upper_unique Lo r r1 r0 n k Li tm Hr Hr1 Hne Hwf p u Hnz).
+Qed.
+
+Section ExamplesSum.
+Local Open Scope string_scope.
+(* the dynamic example again: whatever upper coordinate the point carries, the contributions that agree with it outside K1
+   add up to the value at the collapsed point; at I = 0 the follower's coordinate 0 lies below the first boundary 1 *)
+Example occ_dyn_sum_example :
+  let cs := run_then_split ["I"] (occ_split "K" "K1" "K0" 2 0) ["K1"; "K0"] [exd_tm] in
+  In "K1" ["K1"; "K0"] /\ NoDup (["I"] ++ ["K1"; "K0"]) /\ (forall t, In t exd_tm -> ~ In "K1" (rem t)) /\
+  sum_except "K1" (exd_point 2 (-7) 3) cs = 44 /\ term_den exd_tm (collapse "K" "K0" (exd_point 2 (-7) 3)) = 44 /\
+  sum_except "K1" (exd_point 0 (-7) 0) cs = 0 /\ part_of (leader_bounds 2 0 (reach_term ["I"] (exd_point 0 (-7) 0) exd_tm)) 0 = None.
+Proof.
+  cbv zeta. split; [left; reflexivity|]. split.
+  { repeat constructor; cbn; intros H; repeat (destruct H as [H|H]; [discriminate|]); exact H. }
+  split.
+  { intros t [<-|[<-|[]]]; cbn; intros H; repeat (destruct H as [H|H]; [discriminate|]); exact H. }
+  repeat split; vm_compute; reflexivity.
+Qed.
+End ExamplesSum.
